@@ -125,6 +125,7 @@ def read_input(ctx, want):
         'read.panic_fails': '--on-error panic returns Err at the first recoverable error, no further read / process / write',
         'read.stdout_reports': '--on-error stdout: exactly one write of an `error:` line to stdout and none to stderr',
         'read.stderr_reports': '--on-error stderr: exactly one write of an `error:` line to stderr and none to stdout',
+        'read.recoverable_continues': 'a malformed value (any parser error but IoError - a truncated last value included) does not end the run under ignore / stdout / stderr: the loop reads on',
         'read.clean_no_report': 'a successfully parsed value or end of input writes nothing under any policy',
         'read.write_err_propagates': 'a failing write of an error: line returns Err',
         'read.counters': 'the j-th context carries index0 + #Continue so far and in-file index #Continue so far',
@@ -211,6 +212,10 @@ def read_input(ctx, want):
                                                                 z3.Implies(z3.And(isval, ooa, container), z3.BoolVal(len(pr) == 1))), z3.And(isval, ooa))
                 check(d, 'read.io_error_fatal', z3.Implies(io, z3.And(retd == 1, z3.BoolVal(not more and not w))), io)
                 check(d, 'read.ignore_silent', z3.Implies(z3.And(rec, pol == IGN), z3.BoolVal(not w)), z3.And(rec, pol == IGN))
+                # every error but IoError is recoverable: unless the policy is panic (or the report cannot be written) the loop reads on
+                reads_on = any(x[0] == 'parse' for x in later)
+                wfail = z3.Or(*[d.heap[x[3].oid]['discr'].t == 1 for x in w]) if w else z3.BoolVal(False)
+                check(d, 'read.recoverable_continues', z3.Implies(z3.And(rec, pol != PAN, z3.Not(wfail)), z3.BoolVal(reads_on)), z3.And(rec, pol != PAN))
                 check(d, 'read.panic_fails', z3.Implies(z3.And(rec, pol == PAN), z3.And(retd == 1, z3.BoolVal(not more and not w))), z3.And(rec, pol == PAN))
                 good_out = len(w) == 1 and STDOUT in w[0][1] and 'error:' in w[0][2]
                 good_err = len(w) == 1 and STDERR in w[0][1] and 'error:' in w[0][2]
